@@ -638,4 +638,55 @@ Section Grammar.
     destruct t; cbn [is_rct_bp is_rct_bp_plus uses_clsag is_simple_or_bp has_p_pseudo];
       pk_chain kside; apply pk_ret; lia.
   Qed.
+
+  (* v1 signatures: the outer vector (one Vec<Signature> header per ToKey input) is paid by the credit 4 * g_row that every
+     ToKey input left behind when the prefix was read *)
+  Lemma pk_v1_sigs ins : forall i C,
+    PK rho (idec_v1_sigs gs ins i) (C + lsum (ce_txin gs) ins + g_row gs * slk i) (256 + 4 * g_row gs) (fun _ => C).
+  Proof.
+    hr. induction ins as [|[h|a ko ki] t IH]; intros i C; cbn [idec_v1_sigs lsum ce_txin].
+    - apply pk_ret. generalize (g_row gs * slk i). intros. lia.
+    - eapply pk_weaken; [apply (IH i C)|lia|lia|]. intros l. lia.
+    - eapply pk_bind; [eapply pk_K; [apply pkg_sigs|lia]|]. intros row. cbv beta.
+      eapply pk_bind.
+      + apply (pk_weaken _ _ _ _ _ _ _ (fun _ => C + lsum (ce_txin gs) t + g_row gs * slk (S i))
+                 (pk_push rho (g_row gs) i (C + lsum (ce_txin gs) t))); [lia|lia|]. intros u. lia.
+      + intros u. cbv beta. eapply pk_bind; [eapply pk_K; [apply (IH (S i) C)|lia]|]. intros rest. apply pk_ret. lia.
+  Qed.
+
+  Lemma pk_tx C : PK rho (idec_tx sz gs) C (KTX gs) (fun _ => C).
+  Proof.
+    hr. unfold idec_tx. eapply pk_bind; [eapply pk_K; [apply pk_prefix|kside]|]. intros p. cbv beta zeta.
+    destruct (version p =? 1).
+    - eapply pk_bind; [|intros sigs; apply pk_ret; apply N.le_refl].
+      eapply pk_weaken; [apply (pk_v1_sigs (inputs p) 0%nat C)| | |]; unfold slk; cbn [gcap N.of_nat]; try kside.
+    - destruct (lenN (inputs p) =? 0); [apply pk_ret; generalize (lsum (ce_txin gs) (inputs p)); intros; lia|].
+      eapply pk_bind; [eapply pk_K; [apply pk_rct_base|kside]|]. intros sig. cbv beta.
+      assert (G : forall mixin t, PK rho (pr <~ idec_rct_prunable sz gs t (lenN (inputs p)) (lenN (outputs p)) mixin ;;
+                                           iret (mk_tx p [] (mk_rct (Some sig) (Some pr))))
+                                    (C + lsum (ce_txin gs) (inputs p)) (KTX gs) (fun _ => C)).
+      { intros mixin t. eapply pk_bind; [apply pk_rct_prunable|]. intros pr. apply pk_ret.
+        generalize (lsum (ce_txin gs) (inputs p)). intros. lia. }
+      destruct (rb_type sig); [apply pk_ret; generalize (lsum (ce_txin gs) (inputs p)); intros; lia|..];
+        (destruct (inputs p) as [|[h|a ko ki] tl]; [apply G|apply G|destruct (lenN ko =? 0); [apply pk_fail|apply G]]).
+  Qed.
+
+  Lemma pk_block C : PK rho (idec_block sz gs) C (KTX gs) (fun _ => C).
+  Proof.
+    hr. unfold idec_block. pose proof pk_tx as Htx.
+    eapply pk_bind; [eapply pk_K; [pk_inst|kside]|]. intros h. cbv beta.
+    eapply pk_bind; [apply Htx|]. intros m. cbv beta.
+    eapply pk_bind; [eapply pk_K; [apply pkv_hash|kside]|]. intros hs. apply pk_ret. lia.
+  Qed.
 End Grammar.
+
+(* ---- 5. the bound -------------------------------------------------------------------------------------------------------------- *)
+Lemma pk_peak rho {A} (i : idec A) K c s : PK rho i 0 K c -> peak_of i s <= K + rho * lenN s.
+Proof. intros H. unfold peak_of. destruct (H s 0 0) as [H1 _]. lia. Qed.
+
+Theorem peak_tx sz gs rho s : rho_ok sz gs rho -> peak_of (idec_tx sz gs) s <= 2 * CAP + AG gs + rho * lenN s.
+Proof. intros Hr. exact (pk_peak rho _ _ _ s (pk_tx sz gs rho Hr 0)). Qed.
+Theorem peak_block sz gs rho s : rho_ok sz gs rho -> peak_of (idec_block sz gs) s <= 2 * CAP + AG gs + rho * lenN s.
+Proof. intros Hr. exact (pk_peak rho _ _ _ s (pk_block sz gs rho Hr 0)). Qed.
+Theorem peak_prefix sz gs rho s : rho_ok sz gs rho -> peak_of (idec_prefix sz) s <= 2 * CAP + rho * lenN s.
+Proof. intros Hr. pose proof (pk_peak rho _ _ _ s (pk_prefix sz gs rho Hr 0)). lia. Qed.
